@@ -835,12 +835,18 @@ fn expand_aliases(ctx: &Context, name: &str) -> (String, String) {
                     break;
                 }
             } else {
-                assert!(name != unit_canon || canon != unit_canon);
+                // The alias can lead straight back, through a plural or
+                // a base unit's long name.
+                if name == unit_canon && canon == unit_canon {
+                    break;
+                }
                 name = unit_canon.clone();
                 canon = unit_canon;
             }
         } else {
-            assert!(name != *unit || canon != unit_canon);
+            if name == *unit && canon == unit_canon {
+                break;
+            }
             name = unit.clone();
             canon = unit_canon.clone();
         }
